@@ -34,6 +34,7 @@ def dispatch1 (op : String) (j : Json) : R Json :=
   | "clump" => hClump j
   | "validate" => hValidate j
   | "outputVcf" => hOutputVcf j
+  | "convertHap" => hConvertHap j
   | "transform" => hTransform j
   | "hapParse" => hHapParse j
   | "hapHeader" => hHapHeader j
